@@ -6,6 +6,7 @@ import (
 	"sort"
 	"strconv"
 	"strings"
+	"sync/atomic"
 	"time"
 )
 
@@ -165,6 +166,9 @@ func parseVal(s *Sexp) (*Val, error) {
 // elements, as a re-used `s = s[:n]` target has.
 var staleCapacity bool
 
+// zeroTimeSeq rotates the location given to zero times
+var zeroTimeSeq int64
+
 func (v *Val) ToReflect(rv reflect.Value, t *TyDef) (err error) {
 	defer func() {
 		if r := recover(); r != nil {
@@ -180,7 +184,12 @@ func (v *Val) ToReflect(rv reflect.Value, t *TyDef) (err error) {
 	case "time":
 		tm := time.Unix(v.Sec, v.Nsec).UTC()
 		// the same instant in other locations (the encoding is of the instant, not of the wall clock)
-		switch (v.Sec ^ v.Nsec) & 3 {
+		sel := (v.Sec ^ v.Nsec) & 3
+		if tm.IsZero() {
+			// the zero instant too (IsZero looks at the instant, not at the location)
+			sel = atomic.AddInt64(&zeroTimeSeq, 1) % 3
+		}
+		switch sel {
 		case 1:
 			tm = tm.In(time.FixedZone("east", int((v.Sec&15)-3)*3600+1800))
 		case 2:
